@@ -431,7 +431,7 @@ inline constexpr double integrate_absolute_polynomial(double t0, double t1, doub
   // location of second zero (if any)
   double mid2 = std::numeric_limits<double>::infinity();
 
-  if (std::abs(A) < 1e-9 && std::abs(B) > 1e-9) {
+  if (std::abs(A) <= 1e-9 && std::abs(B) > 1e-9) {
     // linear non-constant function
     mid1 = std::clamp(-C / B, t0, t1);
   } else if (std::abs(A) > 1e-9) {
